@@ -1,5 +1,7 @@
 import Dashu.Proofs.Mem.Pool
 import Dashu.Proofs.Mem.Memory
+import Dashu.Proofs.Mem.Slice
+import Dashu.Proofs.Mem.Arith
 /-
   C17 — The hand-managed integer storage is memory-safe and keeps its invariants  (PARTIAL).
 
@@ -10,6 +12,11 @@ import Dashu.Proofs.Mem.Memory
   `Op` over a register pool; `run` executes them.  All theorems quantify over ALL histories (induction
   over the list; no bound on length, register numbers, word values or sizes), all `MAX_CAPACITY = mx`,
   and all word sizes `W > 0` where `W` matters (`Repr::ones`).
+
+  Round 2 additions: static-backed values (`from_static_words`) as a read-only register kind,
+  `into_sign_typed`, the `&UBig ↔ &IBig` transmutes, the `unsafe` blocks of shift.rs / primitive.rs, and
+  the public `UBig` operations `+ - * << >>` (all ownership forms) as histories over the same op
+  alphabet (`Model/Mem/Arith.lean`), so that the representation invariant after arithmetic is a theorem.
 
   What "partial" means here (DESIGN §8 C17): the theorems decide the ledger facts (bounds, lifetime,
   double free, leak) and the representation invariant.  Rust-level UB that is not a ledger fact
@@ -419,5 +426,167 @@ theorem bump_slices_disjoint {usz : Nat} (rs : List Bump.Req) (hal : ∀ r ∈ r
     (∀ sl ∈ sls, m.start ≤ sl.1 ∧ sl.1 ≤ sl.2 ∧ sl.2 ≤ fin.start) ∧
     sls.Pairwise (fun a b => a.2 ≤ b.1) :=
   Bump.allocateMany_disjoint rs hal hm h
+
+-- ============================================================== static-backed values, sign/typed moves
+
+section Statics
+variable {L : Ledger} {n mx : Nat}
+
+/-- repr.rs:290 `Repr::from_static_words` (what `ubig!`/`static_ubig!` expand to inside a `static`
+    item): 0/1/2 words give an ordinary canonical inline value (`[lo, hi]` asserts `hi > 0`, repr.rs:295);
+    ≥ 3 words give a static-backed value with `|capacity| = len ≥ 3` (so `new_unchecked(len)` is
+    non-zero) and non-zero top word (assert repr.rs:301); no allocator event -/
+theorem unsafe_repr_rs_290 (ws : List Nat) :
+    Sat L n (Rep.fromStaticWords ws) (fun o L' n' => L' = L ∧ n' = n ∧
+      match o with
+      | .value r => r.Canon mx ∧ r.own = none ∧ r.isNeg = false ∧
+          ∃ t, ws = r.words ++ t ∧ ∀ x ∈ t, x = 0
+      | .stat ws' => ws' = ws ∧ StaticWf ws') := fromStaticWords_sat ws
+
+/-- `Clone::clone` of a `&'static` value allocates a fresh buffer, reads only the `static` array, and
+    yields an equal canonical value -/
+theorem static_clone_correct {ws : List Nat} {neg : Bool} (hs : StaticWf ws) :
+    Sat L n (Rep.cloneStatic mx ws neg) (fun r' L' _ =>
+      Moves L L' n none r'.own ∧ r'.Canon mx ∧ r'.words = ws ∧ r'.isNeg = neg) := cloneStatic_sat hs
+
+/-- `x.clone_from(&STATIC)` for every size relation of `x` -/
+theorem static_clone_from_correct {self : Rep} {sws : List Nat} {sneg : Bool} (hcs : self.Canon mx)
+    (hLs : self.Live L) (hs : StaticWf sws) :
+    Sat L n (Rep.cloneFromStatic mx self sws sneg) (fun r' L' _ =>
+      Moves L L' n self.own r'.own ∧ r'.Canon mx ∧ r'.words = sws ∧ r'.isNeg = sneg) :=
+  cloneFromStatic_sat hcs hLs hs
+
+/-- a register holding a `&'static UBig/IBig` can never be the target of an operation other than
+    reading its words or forgetting the reference: `Drop`, `clone_from` INTO it, `into_buffer`,
+    `with_sign`, … have no arm in the model because safe Rust cannot express them on a `&'static T`
+    (the macros only ever hand out `&VALUE` of an immutable `static`).  Since the static array is
+    not a ledger allocation, no event of any history can free, reallocate or write it. -/
+theorem static_register_readonly {W mx : Nat} {P P' : Pool} {k : Nat} {ws : List Nat} {neg : Bool}
+    (h : P k = .stat ws neg) (op : Op) (ht : op.target = k) (n : Nat)
+    (hr : (step W mx P op n).res = .ok P') : P' = P ∨ op = .drop k :=
+  stat_target_readonly h op ht n hr
+
+/-- repr.rs:209 `Repr::into_sign_typed` hands the allocation over unchanged and cannot panic -/
+theorem unsafe_repr_rs_209 {r : Rep} (hc : r.Canon mx) (hL : r.Live L) :
+    Sat L n (Rep.intoSignTyped r) (fun o L' _ =>
+      L' = L ∧ o.1 = r.isNeg ∧ o.2.own = r.own ∧
+      match o.2 with
+      | .small lo hi => r.words = (Rep.fromDword lo hi).words
+      | .large b => b.Wf mx ∧ b.ws = r.words) := intoSignTyped_sat hc hL
+
+/-- convert.rs:563 / 695 `as_ibig` / `as_ubig`: identity on the representation (layout: both are
+    `#[repr(transparent)]` over `Repr` — compile-time fact); `as_ubig` only for positive values -/
+theorem unsafe_convert_rs_563_695 {r r' : Rep} (h : Rep.asUbig r = some r') :
+    r' = r ∧ r'.isNeg = false ∧ Rep.asIbig r = r :=
+  ⟨(as_ubig_positive h).1, (as_ubig_positive h).2, rfl⟩
+
+end Statics
+
+-- ============================================================== shift.rs / primitive.rs
+
+section Slices
+variable {L : Ledger} {n : Nat}
+
+/-- shift.rs:57 `shr_in_place_one_word`: safe for every NON-EMPTY slice inside a live allocation.
+    The function itself has no length check; its two direct callers pass ≥ 1 words
+    (div/mod.rs:127 after `debug_assert!(words.len() >= 2)`, root_ops.rs:195 a buffer of n+1 words),
+    and `shr_in_place` forwards to it only for `shift == WORD_BITS`. -/
+theorem unsafe_shift_rs_57 {debug : Bool} {s : Slice} (h : s.Ok L) (hl : 1 ≤ s.len) :
+    Sat L n (shrInPlaceOneWord debug s) (fun _ L' _ => L' = L) := shrInPlaceOneWord_sat h hl
+
+/-- …and the hypothesis is needed: on an empty slice at the end of its allocation the unconditional
+    `ptr.read()` is out of bounds (the overflow panic of `len - 1` comes after it) -/
+theorem unsafe_shift_rs_57_needs_nonempty :
+    replay (Ledger.empty.set 0 (some 3)) (shrInPlaceOneWord true ⟨0, 3, 0⟩ 1).evs = none :=
+  shrInPlaceOneWord_empty_unsafe
+
+/-- primitive.rs:66 `lowest_dword` (`get_unchecked(0|1)`): safe with debug assertions for every
+    slice, without them iff the caller passes ≥ 2 words -/
+theorem unsafe_primitive_rs_66 {s : Slice} (h : s.Ok L) :
+    Sat L n (lowestDwordSlice true s) (fun _ L' _ => L' = L) ∧
+    (2 ≤ s.len → Sat L n (lowestDwordSlice false s) (fun _ L' _ => L' = L)) :=
+  ⟨lowestDwordSlice_debug_sat h, lowestDwordSlice_release_sat h⟩
+
+theorem unsafe_primitive_rs_66_needs_two :
+    replay (Ledger.empty.set 0 (some 3)) (lowestDwordSlice false ⟨0, 2, 1⟩ 1).evs = none :=
+  lowestDwordSlice_release_short_unsafe
+
+/-- primitive.rs:82 `highest_dword` -/
+theorem unsafe_primitive_rs_82 {s : Slice} (h : s.Ok L) :
+    Sat L n (highestDwordSlice true s) (fun _ L' _ => L' = L) ∧
+    (2 ≤ s.len → Sat L n (highestDwordSlice false s) (fun _ L' _ => L' = L)) :=
+  ⟨highestDwordSlice_debug_sat h, highestDwordSlice_release_sat h⟩
+
+/-- primitive.rs:96 `split_hi_word`: the `unreachable_unchecked()` arm is not reached -/
+theorem unsafe_primitive_rs_96 {s : Slice} (h : s.Ok L) :
+    Sat L n (splitHiWordSlice true s) (fun _ L' _ => L' = L) ∧
+    (1 ≤ s.len → Sat L n (splitHiWordSlice false s) (fun _ L' _ => L' = L)) :=
+  ⟨splitHiWordSlice_debug_sat h, splitHiWordSlice_release_sat h⟩
+
+end Slices
+
+-- ============================================================== public arithmetic as histories
+
+/-- every register that holds a `Repr` after a completed history is canonical — in the words of the
+    property: a value of ≤ 2 words is inline, a heap value has ≥ 3 words, a non-zero top word and
+    `len ≤ cap ≤ max_compact_capacity(len) ≤ MAX_CAPACITY`, and zero is not negative -/
+theorem invariant_says_canonical {mx : Nat} {P : Pool} {L : Ledger} (hI : Inv mx P L) (k : Nat) (r : Rep)
+    (hk : P k = .rep r) :
+    (r.len ≤ 2 ↔ r.capacity ≤ 2) ∧
+    (2 < r.capacity → 3 ≤ r.len ∧ r.words.getLast? ≠ some 0 ∧ r.len ≤ r.capacity ∧
+      r.capacity ≤ maxCompactCapacity mx r.len ∧ r.capacity ≤ mx) ∧
+    (r.isZero = true → r.isNeg = false) := by
+  have hw := hI.wf k
+  rw [hk] at hw
+  cases r with
+  | inline lo hi code neg =>
+    obtain ⟨h1, h2⟩ := hw
+    refine ⟨?_, ?_, ?_⟩
+    · simp only [Rep.len, Rep.capacity]
+      rcases h1 with ⟨hc, _⟩ | ⟨hc, _⟩ <;> subst hc <;> simp <;> split <;> omega
+    · intro hc; simp only [Rep.capacity] at hc
+      rcases h1 with ⟨hc', _⟩ | ⟨hc', _⟩ <;> omega
+    · intro hz
+      simp only [Rep.isZero, decide_eq_true_eq] at hz
+      cases neg with
+      | false => rfl
+      | true => exact absurd hz (h2 rfl)
+  | heap id cap ws neg =>
+    obtain ⟨h3, hlast, hlen, hcmp, hmx⟩ := hw
+    refine ⟨?_, ?_, ?_⟩
+    · simp only [Rep.len, Rep.capacity]; omega
+    · intro _; exact ⟨h3, hlast, hlen, hcmp, hmx⟩
+    · intro hz; cases hz
+
+/-- (4) histories of PUBLIC operations: every `UBig` `+ - * << >>` in every ownership form is, storage-
+    wise, a history over `AOp` (the skeletons `fragAdd/fragSub/fragMul/fragShl/fragShr` of
+    `Model/Mem/Arith.lean`, mirrored from add_ops.rs / mul_ops.rs / shift_ops.rs and compared with the
+    real allocator event stream on every run), with the word-level kernels abstracted to an arbitrary
+    `overwrite`.  Hence, after ANY sequence of such operations interleaved with any other history
+    (clone, clone_from, from_words, drops, …), whatever the kernels wrote: all events are safe, no
+    UB point is reached, and the invariant — so `invariant_says_canonical` for every value — holds. -/
+theorem arithmetic_histories_keep_invariant {W mx : Nat} (hW : 0 < W)
+    (segs : List (List Op ⊕ List AOp)) (hok : ∀ s ∈ segs, ∀ ops, s = .inl ops → ∀ op ∈ ops, op.Ok mx) :
+    let h : List Op := segs.flatMap fun s => match s with | .inl ops => ops | .inr sk => sk.map AOp.toOp
+    ∃ L', replay Ledger.empty (exec W mx h).evs = some L' ∧
+      (∀ s, (exec W mx h).res ≠ .error (.ub s)) ∧
+      ∀ P', (exec W mx h).res = .ok P' → Inv mx P' L' := by
+  intro h
+  have hall : ∀ op ∈ h, op.Ok mx := by
+    intro op hop
+    obtain ⟨s, hs, hin⟩ := List.mem_flatMap.mp hop
+    cases s with
+    | inl ops => exact hok _ hs ops rfl op hin
+    | inr sk => exact AOp.map_ok mx sk op hin
+  exact history_keeps_invariant hW h hall (Inv.empty mx) (n := 0) (fun _ _ => rfl)
+
+/-- the concrete skeletons are such histories (instances for all operands, all forms) -/
+theorem skeleton_ops_ok (W mx sq : Nat) (f : Form) (a b : List Nat) (byVal : Bool) (k : Nat) :
+    (∀ op ∈ ((fragAdd W f a b).ops ++ (fragAdd W f a b).cleanup).map AOp.toOp, op.Ok mx) ∧
+    (∀ op ∈ ((fragSub W f a b).ops ++ (fragSub W f a b).cleanup).map AOp.toOp, op.Ok mx) ∧
+    (∀ op ∈ ((fragMul W sq f a b).ops ++ (fragMul W sq f a b).cleanup).map AOp.toOp, op.Ok mx) ∧
+    (∀ op ∈ ((fragShl W mx byVal a k).ops ++ (fragShl W mx byVal a k).cleanup).map AOp.toOp, op.Ok mx) ∧
+    (∀ op ∈ ((fragShr W byVal a k).ops ++ (fragShr W byVal a k).cleanup).map AOp.toOp, op.Ok mx) :=
+  ⟨AOp.map_ok mx _, AOp.map_ok mx _, AOp.map_ok mx _, AOp.map_ok mx _, AOp.map_ok mx _⟩
 
 end Dashu.Props.C17
